@@ -344,6 +344,35 @@ pub fn install_panic_hook() {
     }));
 }
 
+/// Judge one case.  The judges wrap the library calls they make in `guard`; a panic that still escapes a judge
+/// is sorted by where it was raised: inside the library under test (an absolute source path outside the
+/// toolchain) it is reported as a violation of the property being checked -- the call the property speaks
+/// about returned nothing --, anywhere else it is a bug of this harness and ends the run with exit code 2.
+pub fn run_judge(judge: Judge, case: &[u8], acc: &mut Acc) {
+    acc.begin(case);
+    if std::panic::catch_unwind(std::panic::AssertUnwindSafe(|| judge(case, acc))).is_err() {
+        let msg = LAST_PANIC.with(|p| p.borrow().clone());
+        if panic_is_in_library(&msg) {
+            acc.violation("panic-in-library-call", "a library call made while judging this case", "normal return".into(), msg);
+        } else {
+            println!("MACHINERY-ERROR: the harness itself panicked while judging {}: {}", escape(&case[..case.len().min(200)]), msg);
+            std::process::exit(2);
+        }
+    }
+    acc.end();
+}
+
+pub fn last_panic() -> String {
+    LAST_PANIC.with(|p| p.borrow().clone())
+}
+
+/// `msg` is "<text> at <file>:<line>"; the harness's own files are compiled with relative paths ("src/…"), the
+/// toolchain's with "/rustc/…" or "library/…", the path dependency under test with its absolute directory.
+pub fn panic_is_in_library(msg: &str) -> bool {
+    let loc = msg.rsplit(" at ").next().unwrap_or("");
+    loc.starts_with('/') && !loc.starts_with("/rustc/") && !loc.contains("/.cargo/") && !loc.contains("/harness/src/") && !loc.contains("/xcheck/src/")
+}
+
 /// Run `f` (which calls into `ppp`), turning an unwind into `Err(message)`.
 #[inline]
 pub fn guard<T>(f: impl FnOnce() -> T) -> Result<T, String> {
@@ -524,11 +553,7 @@ impl Run {
                     }
                     acc.unit = unit as u64 ^ (hash64(u.name().as_bytes()) << 20);
                     acc.idx = 0;
-                    u.run_unit(unit, &mut |case: &[u8]| {
-                        acc.begin(case);
-                        judge(case, &mut acc);
-                        acc.end();
-                    });
+                    u.run_unit(unit, &mut |case: &[u8]| run_judge(judge, case, &mut acc));
                     acc
                 },
             )
@@ -573,9 +598,7 @@ impl Run {
 /// Does `case` still show a violation of `kind` (through any entry point)?
 fn still(judge: Judge, case: &[u8], kind: &str) -> Option<Violation> {
     let mut acc = Acc::scratch();
-    acc.begin(case);
-    judge(case, &mut acc);
-    acc.end();
+    run_judge(judge, case, &mut acc);
     acc.viols.remove(kind).and_then(|mut v| {
         // prefer the violation reported on the case itself
         let pos = v.iter().position(|x| x.case == case).unwrap_or(0);
